@@ -274,6 +274,26 @@ def run(ctx):
         res.case(canon_json([text, history]), {"text": text[:300], "history": history[:6]} if len(res.samples) < 3 else None)
         res.count("histories")
         res.count("steps", len(history))
+    # --- copy, then redefine, then copy again (the EvtGen idiom): `CopyDecay OLD ORIG`, an explicit `Decay OLD` block with other
+    # lines, `CopyDecay NEW OLD`: OLD answers with its explicit block (the first table of that name), and NEW equals OLD
+    import itertools as _it
+
+    stm = {"orig": "Decay ORIG0\n0.6 K- pi+ PHSP;\n0.4 K- pi+ pi0 PHOTOS VSS;\nEnddecay", "c1": "CopyDecay OLD0 ORIG0",
+           "old": "Decay OLD0\n1.0 mu+ mu- PHOTOS VLL;\nEnddecay", "c2": "CopyDecay NEW0 OLD0"}
+    for order in _it.permutations(["orig", "c1", "old", "c2"]):
+        text = "\n".join(stm[k] for k in order) + "\n"
+        try:
+            q = DecFileParser.from_string(text)
+            q.parse()
+            got = {m: [list(fs) for fs in q.list_decay_modes(m)] for m in ("ORIG0", "OLD0", "NEW0")}
+        except Exception as e:
+            got = f"{type(e).__name__}: {e}"
+        want = {"ORIG0": [["K-", "pi+"], ["K-", "pi+", "pi0"]], "OLD0": [["mu+", "mu-"]], "NEW0": [["mu+", "mu-"]]}
+        res.case(canon_json(["copy-redefine-copy", order]))
+        res.count("copy_redefine_copy")
+        if got != want:
+            res.violation("CopyDecay NEW OLD does not give NEW the table OLD answers with (OLD copied from elsewhere and then defined by its own Decay block)",
+                          {"kind": "history", "text": text}, impl=got, model=want, clause="CopyDecay")
     # --- model names registered by the user (in one or several calls) are part of the parser: parsing the same text again, or
     # looking at the grammar first, gives the answers of a fresh instance on which the same names were registered
     reg_text = ("Alias MyD0 D0\nAlias MyAntiD0 anti-D0\nChargeConj MyD0 MyAntiD0\nDecay B0\n0.6 K+ MODEL_A PHSP;\n0.4 K+ pi- MODEL_C 1.0 2.0;\nEnddecay\n"
